@@ -357,6 +357,43 @@ func c01MergeDoc(r *hx.Run) string {
 	return sb.String()
 }
 
+// c01YamlFeatureDoc: the corners of YAML a rule file may use - aliases in key position, merge keys with values that
+// cannot be merged, `<<` as a plain value, integers that do not fit, template blocks named like Prometheus names the
+// template - each with a harmless and a harmful variant.
+func c01YamlFeatureDoc(r *hx.Run) string {
+	rr := r.Rng
+	var sb strings.Builder
+	anchor := hx.Pick(rr, []string{"interval", "labels", "expr", "bogus", "limit"})     // what the anchor is called
+	held := hx.Pick(rr, []string{"interval", "labels", "bogus", "query_offset", "for"}) // what it holds
+	fmt.Fprintf(&sb, "groups:\n- name: &%s %s\n", anchor, held)
+	switch rr.Intn(6) {
+	case 0:
+		fmt.Fprintf(&sb, "  *%s : 1m\n", anchor) // a group key spelled through the alias
+	case 1:
+		sb.WriteString("  limit: " + hx.Pick(rr, []string{"10", "9223372036854775807", "9223372036854775808", "18446744073709551615", "!!int foo", "0x10", "-1"}) + "\n")
+	}
+	sb.WriteString("  rules:\n")
+	for i, n := 0, 1+rr.Intn(2); i < n; i++ {
+		name := fmt.Sprintf("A%d", i)
+		switch rr.Intn(7) {
+		case 0: // `<<` as a value, then a key that may or may not belong
+			fmt.Fprintf(&sb, "  - alert: <<\n    %s\n    expr: up == 0\n", hx.Pick(rr, []string{"bogus: Foo", "bogus: Foo", "for: 1m", "labels: {a: b}"}))
+		case 1: // merge key with a value that cannot be merged
+			fmt.Fprintf(&sb, "  - alert: %s\n    expr: up == 0\n    <<: %s\n", name, hx.Pick(rr, []string{"1", "*" + anchor, "abc", "[1, 2]", "{}", "{for: 1m}"}))
+		case 2: // a rule key spelled through the alias
+			fmt.Fprintf(&sb, "  - alert: %s\n    expr: up == 0\n    *%s : %s\n", name, anchor, hx.Pick(rr, []string{"{}", "1m", "x"}))
+		case 3: // template blocks
+			fmt.Fprintf(&sb, "  - alert: %s\n    expr: up == 0\n    annotations:\n      summary: '{{ define \"%s\" }}x{{ end }}y'\n", name,
+				hx.Pick(rr, []string{"__alert_" + name, "__alert_Other", "other", "__alert_"}))
+		case 4:
+			fmt.Fprintf(&sb, "  - alert: %s\n    expr: up == 0\n    labels:\n      sev: '{{ define \"__alert_%s\" }}x{{ end }}'\n", name, name)
+		default:
+			fmt.Fprintf(&sb, "  - record: r%d:x\n    expr: up\n", i)
+		}
+	}
+	return sb.String()
+}
+
 func runC01(r *hx.Run, replay string) {
 	dir, err := os.MkdirTemp("", "c01-")
 	if err != nil {
@@ -383,6 +420,9 @@ func runC01(r *hx.Run, replay string) {
 		c01Eval(r, c01Case{Content: content, Traits: g.traits}, dir)
 		if i%8 == 0 {
 			c01Eval(r, c01Case{Content: c01MergeDoc(r), Traits: []string{"merge"}}, dir)
+		}
+		if i%3 == 0 {
+			c01Eval(r, c01Case{Content: c01YamlFeatureDoc(r), Traits: []string{"yaml-features"}}, dir)
 		}
 		if r.Rng.Intn(4) == 0 {
 			// byte / line level mutation of the same document
